@@ -1395,11 +1395,16 @@ impl Visitor<Diagnostic> for LibraryRenderer {
         &mut self,
         node: &dsl::textual::CaseStatementGroup,
     ) -> Result<Self::Value, Diagnostic> {
-        for selector in node.selectors.iter() {
+        // The selectors of one group form a comma separated list in front of a single ':'
+        let mut selectors = node.selectors.iter().peekable();
+        while let Some(selector) = selectors.next() {
             self.visit_case_selection_kind(selector)?;
-            self.write_ws(":");
-            self.newline();
+            if selectors.peek().is_some() {
+                self.write_ws(",");
+            }
         }
+        self.write_ws(":");
+        self.newline();
 
         self.indent();
 
